@@ -320,8 +320,11 @@ func c12Run(t *testing.T, sc c12Scenario, c *vsched.Chooser) vsched.Outcome {
 			case c12Adv100, c12AdvTm100m1, c12AdvTm1, c12AdvT, c12AdvTp1:
 				time.Sleep(c12Deltas[ev])
 			case c12Pause:
+				// flags that get SET are updated after the check of this step, flags that get CLEARED
+				// before it: something that happened while the flag was changing is judged leniently.
 				if Tell(ctx, x, new(PausePassivation)) == nil {
 					vfSettle()
+					check()
 					paused, reinstatedSincePause = true, false
 				}
 			case c12Resume:
@@ -333,6 +336,7 @@ func c12Run(t *testing.T, sc c12Scenario, c *vsched.Chooser) vsched.Outcome {
 				before := len(w.snapshot())
 				if Tell(ctx, x, new(c12Fail)) == nil {
 					vfSettle()
+					check() // a passivation racing the suspension (message-count reached by the failing message) is legal
 					for _, e := range w.snapshot()[before:] {
 						if e.kind == "recv" && e.what == "fail" {
 							suspended = true
